@@ -878,6 +878,25 @@ class Interp:
             if o.kind != "val":
                 res.append(o)
                 continue
+            if isinstance(o.value, tuple) and o.value[:1] == ("A",):
+                # a literal array: the body runs once per element, in order
+                live = [o.st]
+                for el in o.value[1]:
+                    nxt = []
+                    for s_ in live:
+                        env = dict(s_.env)
+                        self.match(e["pat"], el, env)
+                        self._count(1)
+                        for o2 in self.ev(e["body"], St(env, s_.events, s_.tainted, s_.approx)):
+                            if o2.kind in ("val", "cont"):
+                                nxt.append(o2.st)
+                            elif o2.kind == "brk":
+                                res.append(Out("val", UNIT, o2.st))
+                            else:
+                                res.append(o2)
+                    live = nxt
+                res += [Out("val", UNIT, s_) for s_ in live]
+                continue
             res += self._loop_once(e["body"], o.st, e["pat"])
         return res
 
@@ -1182,4 +1201,7 @@ class Interp:
         return [Out("val", UNK, st)]
 
     def _e_array(self, e, st):
-        return [Out("val", UNK, st)]
+        if not e.get("elems") or len(e["elems"]) > 8:
+            return [Out("val", UNK, st)]
+        acc, esc = self._seq(e["elems"], st)
+        return [Out("val", ("A", tuple(vals)), s) for vals, s in acc] + esc
